@@ -69,6 +69,9 @@ void holdout_validation::init(unsigned run)
     std::iter_swap(curr, rand);
   }
 
+  // The examples keep their class / column encoding.
+  validation_.clone_schema(training_);
+
   const auto from(std::next(training_.begin(), skip));
   std::copy(from, training_.end(), std::back_inserter(validation_));
   training_.erase(from, training_.end());
